@@ -85,6 +85,7 @@ func (s *rtSource) Send(req *adminservice.StreamWorkflowReplicationMessagesReque
 	}
 	if st := req.GetSyncReplicationState(); st != nil {
 		a := st.InclusiveLowWatermark
+		verifObserve("ack-to-source", s.idx, a)
 		if s.onAck != nil {
 			s.onAck(s, a)
 		}
@@ -166,6 +167,9 @@ func (t *rtTarget) Send(resp *adminservice.StreamWorkflowReplicationMessagesResp
 		}
 	}
 	t.msgs++
+	if m := resp.GetMessages(); m != nil {
+		verifObserve("message-to-target", t.idx, len(m.ReplicationTasks), m.ExclusiveHighWatermark)
+	}
 	if t.onSend != nil {
 		t.onSend(t, resp)
 	}
